@@ -120,7 +120,7 @@ func runSparseIdx(x *X, cs *Case) {
 		return cs.Codec + "|" + ct.fam() + "|sparse index list|" + cls + "|" + what
 	}
 	desc := fmt.Sprintf("%s reader given index list %v with values %v (%s): ", cs.Reader, cs.Idx, cs.Vals, show(cs.Input))
-	recv := newReceiver(ct, likeOf(ct), cs.Recv == "used")
+	recv := newReceiver(ct, likeOf(ct), recvKind(cs.Recv == "used"), nil)
 	err, pc := decodeInto(x, recv, cs.Codec, cs.Input, "method")
 	switch {
 	case pc != "":
